@@ -169,6 +169,10 @@ def parseSep (s : String) : Sep :=
   | ["const", v] => .const (parseCps v)
   | ["preset", v] => presetSep v
   | ["recipe", v] => .recipe (parseRecipe v)
+  | ["custom", d, v] =>
+    match parseList v with
+    | [] => .custom [] [] (d.toInt?.getD 1)
+    | f :: o => .custom f o (d.toInt?.getD 1)
   | _ => .char []
 
 def parseToks (s : String) : List (Token (List Nat)) :=
@@ -203,6 +207,7 @@ def showSep : Sep → String
   | .char s => s!"char:{showCps s}"
   | .const s => s!"const:{showCps s}"
   | .recipe r => s!"recipe:{showRecipe r}"
+  | .custom f o d => s!"custom:{d}:{showList (f :: o)}"
 
 /-- `cli argv=<list> [words=<list> titles=<list>]`: what the command line denotes, and what the
 library model says about that recipe. -/
